@@ -11,6 +11,8 @@ use serde_json::json;
 
 const SYMS: &[&[u8]] = &[
     b"'", b"\"", b"\\", b"$", b"`", b" ", b"\t", b"\n", b"\r", b",", b";", b"&", b"<", b">", b"%", b"+", b"=", b"/", b"?", b"#", b"-", b"!", b"*", b"(", b"a", b"A", "é".as_bytes(), "€".as_bytes(), "😀".as_bytes(), b"\xff", b"\x00", b"~",
+    // spellings that the decoders give a meaning to, and their tails (so that e.g. "&amp;lt;" is formed)
+    b"&lt;", b"&amp;", b"lt;", b"amp;", b"&#39;", b"&quot;", b"%41", b"%c3%a9", b"41", b"QQ==", b"\\n", b"\\u0041", b"''", b"\"\"",
 ];
 
 fn strings(alpha: &[&[u8]], maxlen: usize) -> Vec<Vec<u8>> {
@@ -176,7 +178,7 @@ pub fn main(tier: Tier) -> ! {
     run.sample(json!({"text_laws": TEXT_LAWS.iter().map(|l| l.0).collect::<Vec<_>>(), "regex_law": "match offsets/lengths in characters, captures located, test == (matches > 0), splits + matches reassemble the subject, scan == matched strings"}));
 
     run.finish(
-        "all strings of length <= 2 (thorough 3) over 32 symbols (shell/CSV/HTML/URL metacharacters, 1-4 byte characters, a lone invalid byte, NUL), as text and byte strings, through 20 in-language round-trip and position laws; regexes built from 15 atoms and their pairs x subsets of the flags g n i x s l x all subjects of length <= 3/4 over {a, b, e-acute, emoji, newline}: match/capture positions, test, splits reassembly, scan; and, at process level, the escaping formatters alone and inside format strings are handed to independent consumers (dash for @sh, Python csv/json/html/urllib/base64 and a TSV reader) which must recover exactly the original data; decoders on all inputs of length <= 3/4 over 16 symbols must never decode a part of malformed input. non-trivial = non-empty string",
+        "all strings of length <= 2 (thorough 3) over 46 symbols (shell/CSV/HTML/URL metacharacters, 1-4 byte characters, a lone invalid byte, NUL, and spellings the decoders interpret: entities, percent escapes, base64 padding, JSON escapes, with their tails), as text and byte strings, through 20 in-language round-trip and position laws; regexes built from 15 atoms and their pairs x subsets of the flags g n i x s l x all subjects of length <= 3/4 over {a, b, e-acute, emoji, newline}: match/capture positions, test, splits reassembly, scan; and, at process level, the escaping formatters alone and inside format strings are handed to independent consumers (dash for @sh, Python csv/json/html/urllib/base64 and a TSV reader) which must recover exactly the original data; decoders on all inputs of length <= 3/4 over 16 symbols must never decode a part of malformed input. non-trivial = non-empty string",
         &["independent consumers: /bin/sh (dash) and the Python standard library", "@urid passes malformed percent sequences through unchanged (like urllib); the demand is that nothing is truncated", "NUL is excluded for @sh (no shell argument can hold it)"],
     )
 }
